@@ -510,6 +510,21 @@ func fillsRowFromParam(fn *ssa.Function, rowV ssa.Value, par *ssa.Parameter) boo
 
 func fillsRowFromParamD(fn *ssa.Function, rowV ssa.Value, par *ssa.Parameter, depth int) bool {
 	found := false
+	// one cell per item: a cell added to the row from inside a second loop (an item expanded into several cells) makes
+	// the row wider than the item count the columns were sized for
+	nested := false
+	eachInstr(fn, func(in ssa.Instruction) {
+		f := staticCallee(in)
+		if f == nil || f.Name() != "Add" || f.Signature.Recv() == nil {
+			return
+		}
+		if capturedLoad(callCommon(in).Args[0]) == rowV && loopDepth(in.Block()) > 1 {
+			nested = true
+		}
+	})
+	if nested {
+		return false
+	}
 	eachInstr(fn, func(in ssa.Instruction) {
 		f := staticCallee(in)
 		// a helper handed the row and the list, which does the filling
